@@ -18,6 +18,8 @@ theorem contains_iff_topleft_size (r : Rect) (p : Pt) :
       r.tl.x ≤ p.x ∧ p.x < r.tl.x + r.size.w ∧ r.tl.y ≤ p.y ∧ p.y < r.tl.y + r.size.h :=
   Rect.contains_iff
 
+/-- (Definitional: `rfl`, restates the model's text of `bottom_right`; the content is in
+`bottom_right_is_max` / `bottom_right_none_iff_empty`.) -/
 theorem bottom_right_spec (r : Rect) :
     r.bottomRight = if 0 < r.size.w ∧ 0 < r.size.h
       then some ⟨r.tl.x + r.size.w - 1, r.tl.y + r.size.h - 1⟩ else none := rfl
@@ -72,7 +74,12 @@ theorem points_intersection (a b : Rect) (hi : (a.intersection b).InRange) (ha :
   rw [Rect.mem_points hi, Rect.mem_points ha, mem_intersection]
 
 /-! ### `envelope` — the smallest rectangle containing both (operands treated as at least 1x1,
-the documented convention) -/
+the documented convention)
+
+`envelope_contains` / `envelope_least` are about `atLeastOne` operands: a zero width or height counts as
+1. For non-empty operands `atLeastOne` is the identity and the statement is the property's. For empty
+operands the result is NOT the smallest rectangle containing both point sets; `envelope_zero_sized`
+states what the code returns there. -/
 
 theorem envelope_contains (a b : Rect) (ha : a.size.w ≤ 2147483647 ∧ a.size.h ≤ 2147483647)
     (hb : b.size.w ≤ 2147483647 ∧ b.size.h ≤ 2147483647) (p : Pt)
@@ -84,6 +91,67 @@ theorem envelope_least (a b c : Rect) (ha : a.size.w ≤ 2147483647 ∧ a.size.h
     (hc : ∀ p, (a.atLeastOne.contains p = true ∨ b.atLeastOne.contains p = true) → c.contains p = true)
     (p : Pt) (hp : (a.envelope b).contains p = true) : c.contains p = true :=
   Rect.envelope_least a b c ha hb hc p hp
+
+/-- What the code returns, for all operands, without `atLeastOne`: the corners are the component-wise
+minimum of the top-left points and the maximum of `top_left + max(size, 1)` (one past the bottom-right
+anchor points). -/
+theorem envelope_closed_form (a b : Rect) (ha : a.size.w ≤ 2147483647 ∧ a.size.h ≤ 2147483647)
+    (hb : b.size.w ≤ 2147483647 ∧ b.size.h ≤ 2147483647) :
+    a.envelope b =
+      ⟨⟨min a.tl.x b.tl.x, min a.tl.y b.tl.y⟩,
+       ⟨(max (a.tl.x + max (a.size.w : Int) 1) (b.tl.x + max (b.size.w : Int) 1) - min a.tl.x b.tl.x).toNat,
+        (max (a.tl.y + max (a.size.h : Int) 1) (b.tl.y + max (b.size.h : Int) 1) - min a.tl.y b.tl.y).toNat⟩⟩ :=
+  Rect.envelope_eq a b ha hb
+
+/-- **Zero sized operands** (the case the two theorems above cover only through `atLeastOne`): the
+envelope of two rectangles of size 0x0 — two EMPTY point sets — is not empty. The code returns the
+rectangle spanned by the two top-left points inclusive, `|dx|+1` by `|dy|+1` (1x1 when they coincide):
+it is not "the smallest rectangle containing both" point sets (the empty rectangle would be), it is the
+smallest one containing both top-left points. -/
+theorem envelope_zero_sized (a b : Rect) (ha : a.size = ⟨0, 0⟩) (hb : b.size = ⟨0, 0⟩) :
+    a.envelope b = Rect.withCorners a.tl b.tl ∧
+    (a.envelope b).size = ⟨(a.tl.x - b.tl.x).natAbs + 1, (a.tl.y - b.tl.y).natAbs + 1⟩ ∧
+    (a.envelope b).contains a.tl = true ∧ (a.envelope b).contains b.tl = true ∧
+    (∀ c : Rect, c.contains a.tl = true → c.contains b.tl = true →
+      ∀ p, (a.envelope b).contains p = true → c.contains p = true) := by
+  have ha' : a.size.w ≤ 2147483647 ∧ a.size.h ≤ 2147483647 := by rw [ha]; decide
+  have hb' : b.size.w ≤ 2147483647 ∧ b.size.h ≤ 2147483647 := by rw [hb]; decide
+  have haw : a.size.w = 0 := by rw [ha]
+  have hah : a.size.h = 0 := by rw [ha]
+  have hbw : b.size.w = 0 := by rw [hb]
+  have hbh : b.size.h = 0 := by rw [hb]
+  have he := Rect.envelope_eq a b ha' hb'
+  refine ⟨?_, ?_, ?_, ?_, ?_⟩
+  · rw [he]
+    simp only [withCorners, haw, hah, hbw, hbh, Rect.mk.injEq, Sz.mk.injEq]
+    refine ⟨trivial, ?_, ?_⟩ <;> omega
+  · rw [he]
+    simp only [haw, hah, hbw, hbh, Sz.mk.injEq]
+    refine ⟨?_, ?_⟩ <;> omega
+  · rw [he, Rect.contains_iff]; simp only [haw, hah, hbw, hbh]; omega
+  · rw [he, Rect.contains_iff]; simp only [haw, hah, hbw, hbh]; omega
+  · intro c hca hcb p hp
+    rw [he, Rect.contains_iff] at hp
+    simp only [haw, hah, hbw, hbh] at hp
+    rw [Rect.contains_iff] at hca hcb ⊢
+    omega
+
+/-- For every pair (any sizes, zero or not) the envelope contains both top-left points. -/
+theorem envelope_contains_top_lefts (a b : Rect) (ha : a.size.w ≤ 2147483647 ∧ a.size.h ≤ 2147483647)
+    (hb : b.size.w ≤ 2147483647 ∧ b.size.h ≤ 2147483647) :
+    (a.envelope b).contains a.tl = true ∧ (a.envelope b).contains b.tl = true := by
+  constructor
+  · apply Rect.envelope_contains a b ha hb a.tl; left
+    rw [Rect.contains_iff]; simp only [atLeastOne]; omega
+  · apply Rect.envelope_contains a b ha hb b.tl; right
+    rw [Rect.contains_iff]; simp only [atLeastOne]; omega
+
+example : (⟨⟨5, 5⟩, ⟨0, 0⟩⟩ : Rect).size = ⟨0, 0⟩ ∧ (⟨⟨20, 20⟩, ⟨0, 0⟩⟩ : Rect).size = ⟨0, 0⟩ := ⟨rfl, rfl⟩
+example : (⟨⟨-7, 3⟩, ⟨320, 0⟩⟩ : Rect).size.w ≤ 2147483647 ∧ (⟨⟨-7, 3⟩, ⟨320, 0⟩⟩ : Rect).size.h ≤ 2147483647 := by decide
+-- two empty rectangles 15 apart: a 16x16 envelope; an empty operand far from a non-empty one enlarges the result
+example : (⟨⟨5, 5⟩, ⟨0, 0⟩⟩ : Rect).envelope ⟨⟨20, 20⟩, ⟨0, 0⟩⟩ = ⟨⟨5, 5⟩, ⟨16, 16⟩⟩ := by decide
+example : (⟨⟨5, 5⟩, ⟨0, 0⟩⟩ : Rect).envelope ⟨⟨5, 5⟩, ⟨0, 0⟩⟩ = ⟨⟨5, 5⟩, ⟨1, 1⟩⟩ := by decide
+example : (⟨⟨0, 0⟩, ⟨0, 0⟩⟩ : Rect).envelope ⟨⟨10, 10⟩, ⟨2, 2⟩⟩ = ⟨⟨0, 0⟩, ⟨12, 12⟩⟩ := by decide
 
 /-! ### `points`, `rows`, `columns` -/
 
@@ -204,7 +272,10 @@ theorem resized_keeps_anchor (r : Rect) (s : Sz) (a : Anchor)
   · cases ax <;> simp only [tdiv2] <;> (repeat' split) <;> omega
   · cases ay <;> simp only [tdiv2] <;> (repeat' split) <;> omega
 
-/-- `resized_width` / `resized_height` are the two axes of `resized`. -/
+/-- `resized_width` / `resized_height` are the two axes of `resized`. (Definitional: `simp` on the
+model's text, where `resized` is written as the composition of the two; the content about resizing is
+`resized_keeps_anchor`. The tie of the three Rust methods to each other is the oracle class
+`resized-axis-mix` + the correspondence.) -/
 theorem resized_axes (r : Rect) (s : Sz) (a : Anchor) :
     (r.resized s a).tl.x = (r.resizedWidth s.w a.ax).tl.x ∧
     (r.resized s a).tl.y = (r.resizedHeight s.h a.ay).tl.y := by
@@ -243,7 +314,9 @@ theorem offset_moves_sides (r : Rect) (n : Int)
     omega
 
 /-- A negative offset larger than the rectangle collapses it to zero size along that axis
-(saturating), it never wraps. -/
+(saturating), it never wraps. (Definitional: unfolds the model's `saturating_sub`, `Nat` subtraction;
+it says nothing about where the collapsed rectangle sits. The content about `offset` is
+`offset_moves_sides` / `offset_grow_moves_sides`.) -/
 theorem offset_collapse (r : Rect) (n : Int) (hn : n < 0) :
     (r.offset n).size.w = r.size.w - (-n).toNat * 2 ∧ (r.offset n).size.h = r.size.h - (-n).toNat * 2 := by
   unfold offset
